@@ -1,5 +1,6 @@
 import NixModel.Lemmas.C05Alias
 import NixModel.Lemmas.C05Dim
+import NixModel.Generated.LinkShape
 
 /-!
 # C05 — links are aliases of the original entity, never copies, and stay in their block
@@ -285,8 +286,11 @@ theorem linked_unit_label_follow_writes (s : DState) (g' : Graph) (dn t : Nat) (
   subst hg'
   subst ht
   have hl' : Linked { s with g := s.g.setAttr lq.key attr (writtenValue attr v) } dn lq.key iv := by
-    obtain ⟨ln, nm, h1, h2, h3⟩ := hl
-    exact ⟨ln, nm, by simp only [child?_setAttr]; exact h1, by simp only [links_setAttr]; exact h2, h3⟩
+    obtain ⟨ln, nm, h1, h2, h3, h4⟩ := hl
+    refine ⟨ln, nm, by simp only [child?_setAttr]; exact h1, by simp only [links_setAttr]; exact h2, h3, ?_⟩
+    show (s.g.setAttr lq.key attr (writtenValue attr v)).getAttr ln "data_object_type" = _
+    rw [getAttr_setAttr_attr_ne _ _ _ _ (by rcases hattr with e | e <;> rw [e] <;> decide)]
+    exact h4
   have hk' : kindOf (s.g.setAttr lq.key attr (writtenValue attr v)) dn = kDimRange := by
     unfold kindOf at hk ⊢
     rw [getAttr_setAttr_attr_ne _ _ _ _ (by rcases hattr with e | e <;> rw [e] <;> decide)]
@@ -303,7 +307,7 @@ theorem link_replaces_ticks (s s' : DState) (p : Path) (i t dn : Nat) (iv : List
   obtain ⟨hlinked, _, _, hnt, _⟩ := linkDataArray_linked hl hdn (Or.inl hk) hfresh
   have h1 := hasLink_of_linked hlinked
   have h2 := hnt hk
-  exact ⟨h1, h2, by simp [isAlias, h1, h2]⟩
+  exact ⟨h1, h2, by simp [isAlias, h1, h2, linkType_of_linkedAs hlinked]⟩
 
 /-- `dim.ticks = ts` replaces the link: afterwards the dimension has no link and reports `ts` -/
 theorem ticks_replace_link (s s' : DState) (p : Path) (i dn : Nat) (ts : List Rat)
@@ -332,14 +336,20 @@ theorem ticks_link_exclusive_invariant (s s' : DState) (hex : Excl s) (hfresh : 
          (∃ p i t iv, linkDataArray s p i t iv = .ok s' ∧ ∀ dn, dimAt s p i = .ok dn →
             kindOf s.g dn = kDimRange ∨ kindOf s.g dn = kDimSet ∨ kindOf s.g dn = kDimSample) ∨
          (∃ p i, removeLink s p i = .ok s') ∨ (∃ q vals, writeData s q vals = .ok s') ∨
-         (∃ p i ls, setLabels s p i ls = .ok s') ∨ (∃ p i a v, setDimAttr s p i a v = .ok s')) : Excl s' := by
-  rcases h with ⟨p, i, ts, h⟩ | ⟨p, i, t, iv, h, hk⟩ | ⟨p, i, h⟩ | ⟨q, vals, h⟩ | ⟨p, i, ls, h⟩ | ⟨p, i, a, v, h⟩
+         (∃ p i ls, setLabels s p i ls = .ok s') ∨ (∃ p i a v, setDimAttr s p i a v = .ok s') ∨
+         (∃ p i t c, linkDataFrame s p i t c = .ok s' ∧ ∀ dn, dimAt s p i = .ok dn →
+            kindOf s.g dn = kDimRange ∨ kindOf s.g dn = kDimSet ∨ kindOf s.g dn = kDimSample) ∨
+         (∃ q c vals, writeColumn s q c vals = .ok s')) : Excl s' := by
+  rcases h with ⟨p, i, ts, h⟩ | ⟨p, i, t, iv, h, hk⟩ | ⟨p, i, h⟩ | ⟨q, vals, h⟩ | ⟨p, i, ls, h⟩ | ⟨p, i, a, v, h⟩ |
+    ⟨p, i, t, c, h, hk⟩ | ⟨q, c, vals, h⟩
   · exact excl_setTicks hex h
   · exact excl_linkDataArray hex hfresh hk h
   · exact excl_removeLink hex h
   · exact excl_writeData hex h
   · exact excl_setLabels hex h
   · exact excl_setDimAttr hex h
+  · exact excl_linkDataFrame hex hfresh hk h
+  · exact excl_writeColumn hex h
 
 /-- it holds in the empty file -/
 theorem ticks_link_exclusive_init : Excl initD := by
@@ -355,6 +365,178 @@ theorem ticks_link_exclusive_init : Excl initD := by
   unfold kindOf at hk
   rw [h0] at hk
   revert hk
+  decide
+
+/-! ## dimension links to a column of a data frame (`link_data_frame`) -/
+
+/-- a link to a frame is accepted only for a column the frame has -/
+theorem frame_link_index_checked (s s' : DState) (p : Path) (i t dn : Nat) (c : Int)
+    (hl : linkDataFrame s p i t c = .ok s') (hdn : dimAt s p i = .ok dn)
+    (hk : kindOf s.g dn = kDimRange ∨ kindOf s.g dn = kDimSet) (hfresh : s.g.node? s.g.nextKey = none) :
+    ∃ fd, frameOf s t = some fd ∧ 0 ≤ c ∧ c.toNat < fd.cols.length := by
+  obtain ⟨_, ⟨fd, h1, h2, h3, _⟩, _⟩ := linkDataFrame_linked hl hdn hk hfresh
+  exact ⟨fd, h1, h2, h3⟩
+
+/-- right after `link_data_frame(frame, c)` the ticks of a range dimension are column `c` of the
+frame's stored rows, the labels of a set dimension likewise -/
+theorem linked_frame_values_current_data (s s' : DState) (p : Path) (i t dn : Nat) (c : Int)
+    (hl : linkDataFrame s p i t c = .ok s') (hdn : dimAt s p i = .ok dn)
+    (hk : kindOf s.g dn = kDimRange ∨ kindOf s.g dn = kDimSet) (hfresh : s.g.node? s.g.nextKey = none) :
+    ∃ fd, frameOf s' t = some fd ∧ readTicks s' dn = column fd c.toNat ∧
+      readLabels s' dn = (column fd c.toNat).map Labels.nums := by
+  obtain ⟨hlinked, ⟨fd, _, hc0, _, hf'⟩, _⟩ := linkDataFrame_linked hl hdn hk hfresh
+  have hcc : ((c.toNat : Nat) : Int) = c := Int.toNat_of_nonneg hc0
+  rw [← hcc] at hlinked
+  exact ⟨fd, hf', readTicks_frame hlinked hf', readLabels_frame hlinked hf'⟩
+
+/-- … and they follow every later `write_column` of the frame, through whichever path `q` the frame
+is reached: the dimension reports column `c` of the CURRENT rows; when the written column is the linked
+one (and every row has that cell) these are exactly the values written -/
+theorem linked_frame_values_follow_writes (s s' : DState) (dn t c c' : Nat) (q : Path) (lq : Loc)
+    (vals : List Rat) (hl : LinkedAs s dn t "DataFrame" [(c : Int)]) (hq : resolve s.g rootLoc q = some lq)
+    (ht : lq.key = t) (hw : writeColumn s q c' vals = .ok s') :
+    ∃ fd, frameOf s t = some fd ∧ frameOf s' t = some (setColumn fd c' vals) ∧
+      readTicks s' dn = column (setColumn fd c' vals) c ∧
+      readLabels s' dn = (column (setColumn fd c' vals) c).map Labels.nums ∧
+      (c' = c → (∀ r ∈ fd.rows, c < r.length) → readTicks s' dn = .ok vals) := by
+  obtain ⟨f, ds, fd, hf, hds, hd, hlen, _, hs'⟩ := writeColumn_ok hw
+  obtain ⟨l, hr, hlf, _⟩ := frameAt_ok hf
+  rw [hq] at hr
+  cases hr
+  rw [ht] at hlf
+  subst hlf
+  have hf0 : frameOf s t = some fd := by simp [frameOf, hds, hd]
+  have hf1 : frameOf s' t = some (setColumn fd c' vals) := by
+    subst hs'
+    simp [frameOf, hds, look_put_self]
+  have hl' : LinkedAs s' dn t "DataFrame" [(c : Int)] := by
+    subst hs'
+    exact hl
+  refine ⟨fd, hf0, hf1, readTicks_frame hl' hf1, readLabels_frame hl' hf1, ?_⟩
+  intro hcc hrows
+  rw [readTicks_frame hl' hf1, hcc]
+  exact column_setColumn fd c vals hlen hrows
+
+/-- unit and label of a range dimension linked to a frame column are the column's entry of the
+frame's `units` and the column's name -/
+theorem linked_frame_unit_label (s s' : DState) (p : Path) (i t dn : Nat) (c : Int)
+    (hl : linkDataFrame s p i t c = .ok s') (hdn : dimAt s p i = .ok dn)
+    (hk : kindOf s.g dn = kDimRange) (hfresh : s.g.node? s.g.nextKey = none) :
+    ∃ fd, frameOf s' t = some fd ∧ ∀ u n, fd.units[c.toNat]? = some u → fd.cols[c.toNat]? = some n →
+      readDimAttr s' dn "unit" = .ok u ∧ readDimAttr s' dn "label" = .ok (some n) := by
+  obtain ⟨hlinked, ⟨fd, _, hc0, _, hf'⟩, _, hkind, _⟩ := linkDataFrame_linked hl hdn (Or.inl hk) hfresh
+  have hcc : ((c.toNat : Nat) : Int) = c := Int.toNat_of_nonneg hc0
+  rw [← hcc] at hlinked
+  rw [hk] at hkind
+  exact ⟨fd, hf', fun u n hu hn => readDimAttr_frame hlinked hkind hf' hu hn⟩
+
+/-- `link_data_frame` on a range dimension replaces the explicit ticks (and the dimension is not an
+"alias": that name is kept for links to a DataArray) -/
+theorem frame_link_replaces_ticks (s s' : DState) (p : Path) (i t dn : Nat) (c : Int)
+    (hl : linkDataFrame s p i t c = .ok s') (hdn : dimAt s p i = .ok dn)
+    (hk : kindOf s.g dn = kDimRange) (hfresh : s.g.node? s.g.nextKey = none) :
+    hasLink s'.g dn = true ∧ s'.g.hasChild dn "ticks" = false ∧ isAlias s' dn = false := by
+  obtain ⟨hlinked, _, hnt, _⟩ := linkDataFrame_linked hl hdn (Or.inl hk) hfresh
+  have h1 := hasLink_of_linkedAs hlinked
+  have h2 := hnt hk
+  exact ⟨h1, h2, by simp [isAlias, h1, h2, linkType_of_linkedAs hlinked]⟩
+
+/-- a link — to an array or to a frame column — REPLACES whatever link was there: afterwards the
+descriptor leads to the node that was handed in, whatever it was linked to before and whatever id
+that node carries (ids play no part: an id-keeping copy of the previous target is a different node) -/
+theorem relink_leads_to_new_target (s s' : DState) (p : Path) (i t dn : Nat)
+    (hdn : dimAt s p i = .ok dn) (hk : kindOf s.g dn = kDimRange ∨ kindOf s.g dn = kDimSet)
+    (hfresh : s.g.node? s.g.nextKey = none)
+    (h : (∃ iv, linkDataArray s p i t iv = .ok s') ∨ (∃ c, linkDataFrame s p i t c = .ok s')) :
+    linkTarget s'.g dn = some t := by
+  have key : ∀ ty iv, LinkedAs s' dn t ty iv → linkTarget s'.g dn = some t := by
+    rintro ty iv ⟨ln, nm, h1, h2, _, _⟩
+    simp [linkTarget, h1, h2]
+  rcases h with ⟨iv, h⟩ | ⟨c, h⟩
+  · exact key _ _ (linkDataArray_linked h hdn hk hfresh).1
+  · exact key _ _ (linkDataFrame_linked h hdn hk hfresh).1
+
+/-! ## the tie to the source: the statement lists generated from `nixio/dimensions.py`, `container.py`,
+`source_link_container.py`, `multi_tag.py`, `feature.py` (`Generated/LinkShape.lean`) -/
+
+/-- in every link method all checks stand before the first write: a refused `link_data_array`,
+`link_data_frame`, `remove_link` or `ticks = …` has written nothing (the `RangeDimension` wrappers with
+the base-class body in the place of their `super()` call) -/
+theorem shape_checks_before_writes :
+    checksFirst Gen.linkDataArrayBody = true ∧ checksFirst Gen.linkDataFrameBody = true ∧
+    checksFirst (inlineSuper Gen.linkDataArrayBody Gen.rangeLinkDataArrayBody) = true ∧
+    checksFirst (inlineSuper Gen.linkDataFrameBody Gen.rangeLinkDataFrameBody) = true ∧
+    checksFirst Gen.removeLinkBody = true ∧ checksFirst Gen.ticksSetterBody = true := by decide
+
+/-- the writes of the generated `link_data_array` (for a range dimension: of the `RangeDimension`
+wrapper around it) are the model's `attachLink`: old link removed, link group created with the type
+"DataArray", then — range only — the ticks dropped -/
+theorem shape_link_data_array_writes (s : DState) (dn t : Nat) (tid : String) (iv : List Int) :
+    runWrites { dn := dn, target := t, tid := tid, iv := iv }
+      (if kindOf s.g dn == kDimRange then inlineSuper Gen.linkDataArrayBody Gen.rangeLinkDataArrayBody
+       else Gen.linkDataArrayBody) s = attachLink s dn t tid "DataArray" iv := by
+  unfold attachLink
+  by_cases hk : (kindOf s.g dn == kDimRange) = true <;> by_cases hl : hasLink s.g dn = true <;>
+    simp [hk, hl, runWrites, execWrite, inlineSuper, Gen.linkDataArrayBody, Gen.rangeLinkDataArrayBody]
+
+/-- … and the writes of the generated `link_data_frame` likewise, with the type "DataFrame" -/
+theorem shape_link_data_frame_writes (s : DState) (dn t : Nat) (tid : String) (iv : List Int) :
+    runWrites { dn := dn, target := t, tid := tid, iv := iv }
+      (if kindOf s.g dn == kDimRange then inlineSuper Gen.linkDataFrameBody Gen.rangeLinkDataFrameBody
+       else Gen.linkDataFrameBody) s = attachLink s dn t tid "DataFrame" iv := by
+  unfold attachLink
+  by_cases hk : (kindOf s.g dn == kDimRange) = true <;> by_cases hl : hasLink s.g dn = true <;>
+    simp [hk, hl, runWrites, execWrite, inlineSuper, Gen.linkDataFrameBody, Gen.rangeLinkDataFrameBody]
+
+/-- an accepted `remove_link` / `ticks = ts` is the generated body's writes on the descriptor -/
+theorem shape_remove_link_and_ticks (s s' : DState) (p : Path) (i : Nat) :
+    (removeLink s p i = .ok s' → ∃ dn, dimAt s p i = .ok dn ∧
+      s' = runWrites { dn := dn, target := 0, tid := "", iv := [] } Gen.removeLinkBody s) ∧
+    (∀ ts, setTicks s p i ts = .ok s' → ∃ dn, dimAt s p i = .ok dn ∧
+      s' = runWrites { dn := dn, target := 0, tid := "", iv := [], ts := ts } Gen.ticksSetterBody s) := by
+  constructor
+  · intro h
+    unfold removeLink at h
+    cases hdn : dimAt s p i with
+    | error e => simp [hdn] at h
+    | ok dn =>
+      simp only [hdn] at h
+      split at h
+      · cases h
+      · exact ⟨dn, rfl, by simpa [runWrites, execWrite, Gen.removeLinkBody] using (Except.ok.inj h).symm⟩
+  · intro ts h
+    unfold setTicks at h
+    cases hdn : dimAt s p i with
+    | error e => simp [hdn] at h
+    | ok dn =>
+      simp only [hdn] at h
+      split at h
+      · cases h
+      · split at h
+        · cases h
+        · split at h
+          · cases h
+          · refine ⟨dn, rfl, ?_⟩
+            have hs' := (Except.ok.inj h).symm
+            by_cases hl : hasLink s.g dn = true <;>
+              simpa [hl, runWrites, execWrite, Gen.ticksSetterBody] using hs'
+
+/-- what is tested before a link is written is the ENTITY ITSELF (`item`, `da`, `dataobj` — never a
+name or an id) for membership in the owning block's container; `append` links what `_accept`
+returned under its id; `Container.__contains__` and `SourceLinkContainer._accept` compare HDF5
+objects; a dimension link is a hard link to the data object itself, named by its id and found again
+as the first entry of the link group; a sampled dimension refuses links -/
+theorem shape_membership_by_object :
+    Gen.membershipTests =
+      [("LinkContainer._accept", "item", "self._itemstore"),
+       ("MultiTag.positions", "da", "self._parent.data_arrays"),
+       ("MultiTag.extents", "da", "self._parent.data_arrays"),
+       ("Feature.data", "dataobj", "parblock.data_arrays"),
+       ("Feature.data", "dataobj", "parblock.data_frames")] ∧
+    Gen.appendBody = ["item = self._accept(item)", "self._backend.create_link(item, item.id)"] ∧
+    Gen.containsComparisons = ["self._backend.group[item.name] == mine"] ∧
+    Gen.sourceAcceptComparisons = ["src.id == item.id", "src._h5group.group == mine"] ∧
+    Gen.linkNamedByTargetId = true ∧ Gen.linkedGroupIsFirstEntry = true ∧ Gen.sampledRefuses = true := by
   decide
 
 /-- The reachable-state form: in every state reached by dimension and structural operations no
@@ -398,6 +580,31 @@ example : ((openCont demo.g [.name "data", .name "b1", .name "groups", .name "g"
     fun c => (contEntries demo.g c).length) = some 1 := by decide +kernel
 example : ((resolve demo.g rootLoc [.name "data", .name "b1", .name "groups", .name "g", .name "data_arrays", .idx 0]).map (·.key)) =
     ((resolve demo.g rootLoc [.name "data", .name "b1", .name "data_arrays", .name "x"]).map (·.key)) := by
+  decide +kernel
+
+/-! ### … and a frame: a range dimension linked to column `v`, the column rewritten afterwards -/
+
+def demoFrameOps : List DOp := [
+  .store (.createBlock "b1" "t"),
+  .createArray [.name "data", .name "b1"] "y" "t" [3] [1, 2, 3],
+  .createFrame [.name "data", .name "b1"] "df" "t" ["t", "v"] [some "s", some "mV"] [[0, 5], [1, 6], [2, 7]],
+  .appendDim [.name "data", .name "b1", .name "data_arrays", .name "y"] (.range (some [1, 2, 3]) none none),
+  .linkDataFrame [.name "data", .name "b1", .name "data_arrays", .name "y"] 1
+    [.name "data", .name "b1", .name "data_frames", .name "df"] 1,
+  .writeColumn [.name "data", .name "b1", .name "data_frames", .name "df"] 1 [50, 60, 70]]
+
+def demoFrame : DState := runD initD demoFrameOps
+
+def demoFrameDim : Option Nat :=
+  (arrayAt demoFrame [.name "data", .name "b1", .name "data_arrays", .name "y"]).toOption.bind fun a =>
+    dimNode demoFrame.g a 1
+
+example : (demoFrameDim.bind fun dn => (readTicks demoFrame dn).toOption) = some [50, 60, 70] := by decide +kernel
+example : (demoFrameDim.map fun dn => (hasLink demoFrame.g dn, demoFrame.g.hasChild dn "ticks", isAlias demoFrame dn,
+    linkType demoFrame.g dn)) = some (true, false, false, "DataFrame") := by decide +kernel
+example : (demoFrameDim.bind fun dn => (readDimAttr demoFrame dn "unit").toOption) = some (some "mV") := by
+  decide +kernel
+example : (demoFrameDim.bind fun dn => (readDimAttr demoFrame dn "label").toOption) = some (some "v") := by
   decide +kernel
 
 end Nix.C05
